@@ -7,8 +7,10 @@
 (*   that *applies* ends the lookup - a format 1 subtable applies only if  *)
 (*   the pair is listed, a format 2 subtable applies as soon as the first  *)
 (*   glyph is covered (and the second glyph's class is within range).      *)
-(* Value records are <<xAdvance, xPlacement, xAdvance device delta>>;      *)
-(* <<0, 0, 0>> = no adjustment. Anchors are <<x, y, x device delta>>.     *)
+(* Value records are 8-tuples <<xAdvance, xPlacement, xAdvance device,     *)
+(* yAdvance, yPlacement, yAdvance device, xPlacement device, yPlacement     *)
+(* device>> (devices: the delta at the one ppem they cover); all zero = no  *)
+(* adjustment. Anchors are <<x, y, x device delta>>.                       *)
 (***************************************************************************)
 EXTENDS Integers, Sequences, FiniteSets
 
@@ -30,7 +32,8 @@ ClassOf(cd, g) ==
   ELSE LET ks == {k \in DOMAIN cd.ranges : cd.ranges[k][1] <= g /\ g <= cd.ranges[k][2]} IN
        IF ks = {} THEN 0 ELSE cd.ranges[CHOOSE k \in ks : TRUE][3]
 
-NoAdj == <<<<0, 0, 0>>, <<0, 0, 0>>>>
+ZeroValue == <<0, 0, 0, 0, 0, 0, 0, 0>>
+NoAdj == <<ZeroValue, ZeroValue>>
 \* subtable = [fmt |-> 1, cov, pairsets : Seq(Seq(<<g2, v1, v2>>))] | [fmt |-> 2, cov, cd1, cd2, records : Seq(Seq(<<v1, v2>>))]
 \* result: [applies, adj]
 ApplySub(st, g1, g2) ==
